@@ -21,6 +21,15 @@ import (
 
 const verifDir = "/verif"
 
+// outDir: where evidence and replay files go; GOVC_OUTDIR redirects them (runs against scratch copies of the
+// repository with a seeded change applied must not overwrite the evidence of the unchanged tree)
+func outDir() string {
+	if d := os.Getenv("GOVC_OUTDIR"); d != "" {
+		return d
+	}
+	return verifDir
+}
+
 type KnownFinding struct {
 	Property   string `json:"property"`
 	Obligation string `json:"obligation"`
@@ -162,7 +171,7 @@ func cmdCheck(args []string) int {
 }
 
 func writeLoadFailure(prop string, err error) string {
-	dir := filepath.Join(verifDir, "replays", prop)
+	dir := filepath.Join(outDir(), "replays", prop)
 	os.MkdirAll(dir, 0o755)
 	path := filepath.Join(dir, "load-failure.json")
 	b, _ := json.MarshalIndent(map[string]interface{}{"obligation": "load", "error": err.Error()}, "", " ")
@@ -353,7 +362,7 @@ func round2(f float64) float64 { return float64(int(f*100+0.5)) / 100 }
 
 // failObligation: triage of a claimed obligation that did not discharge (DESIGN 2.5).
 func (cr *checkRun) failObligation(name, desc string, fn *ssa.Function, fc *FuncContract, o *OblResult, res Result) {
-	dir := filepath.Join(verifDir, "replays", cr.prop)
+	dir := filepath.Join(outDir(), "replays", cr.prop)
 	os.MkdirAll(dir, 0o755)
 	file := filepath.Join(dir, sanitize(name)+".json")
 	rec := map[string]interface{}{
@@ -660,9 +669,9 @@ func (cr *checkRun) writeEvidence() {
 		"wall_s":      round2(time.Since(cr.start).Seconds()),
 		"violations":  len(cr.violations),
 	}
-	os.MkdirAll(filepath.Join(verifDir, "evidence"), 0o755)
+	os.MkdirAll(filepath.Join(outDir(), "evidence"), 0o755)
 	b, _ := json.MarshalIndent(ev, "", " ")
-	os.WriteFile(filepath.Join(verifDir, "evidence", cr.prop+".json"), b, 0o644)
+	os.WriteFile(filepath.Join(outDir(), "evidence", cr.prop+".json"), b, 0o644)
 }
 
 func (cr *checkRun) runSelftest() {
